@@ -291,6 +291,19 @@ def Ghost.run (G : Ghost σ) (es : List (Ev σ)) : Ghost σ := es.foldl Ghost.st
 one of the snapshots saved since (`none` = workspace without state) -/
 def Adm (G : Ghost σ) (x : Option σ) : Prop := x = G.base ∨ ∃ s, s ∈ G.since ∧ x = some s
 
+/-- which snapshot an *intact* directory image holds: `pending` is the snapshot being written,
+it becomes `durable` when `.dirty` is renamed to `.new` -/
+structure Dur (σ : Type) where
+  pending : Option σ
+  durable : Option σ
+
+def Dur.step (D : Dur σ) : Ev σ → Dur σ
+  | .saved s => ⟨some s, D.durable⟩
+  | .op (.rename .dirty .new) => ⟨D.pending, match D.pending with | some s => some s | none => D.durable⟩
+  | _ => D
+
+def Dur.run (D : Dur σ) (es : List (Ev σ)) : Dur σ := es.foldl Dur.step D
+
 /-- sessions for histories with several crashes -/
 inductive Session (μ : Type)
   | complete (calls : List (Call μ))
